@@ -227,8 +227,7 @@ Proof.
     + destruct (Nat.eqb sl' slot); cbn [snd]; [|exact H]. apply FrG_emit; auto. destruct isreq; discriminate.
     + cbn [snd]. apply FrG_emit; [destruct isreq; discriminate|].
       eapply FrG_mk; [..|exact H]; try reflexivity. intros o' _. auto.
-  - destruct isreq; [exact H|]. destruct (jpv4 m1) as [[id' ?]|]; cbn [snd]; [|exact H].
-    apply FrG_emit; auto. discriminate.
+  - exact H.
 Qed.
 Lemma Fr_handle_ack : forall slot id m m1, Fr slot m m1 -> Fr slot m (handle_ack slot id m1).
 Proof.
@@ -248,7 +247,7 @@ Proof.
 Qed.
 Lemma Fr_prov6 : forall slot isreq r m m1, Fr slot m m1 -> Fr slot m (prov6 slot isreq r m1).
 Proof.
-  intros slot isreq r m m1 H. unfold prov6. destruct r as [[id hp]|]; [|apply FrG_emit; [discriminate|exact H]].
+  intros slot isreq r m m1 H. unfold prov6. destruct r as [[id hp]|]; [|exact H].
   cbv zeta.
   match goal with |- context [mkIm (jms m1) (jpv4 m1) ?pv _ _ _ _ _] => set (PV := pv) end.
   assert (K : Fr slot m (mkIm (jms m1) (jpv4 m1) PV (jm4 m1) (jm6 m1) (jmq m1) (jmo m1) (jby4 m1))).
